@@ -169,6 +169,7 @@ fn cast_ray(bv: &SimdAabb, ray: &SimdRay) -> (SimdBool, SimdReal) {
     let zero = SimdReal::splat(0.0);
     let one = SimdReal::splat(1.0);
     let infinity = SimdReal::splat(f64::MAX);
+    let slack_factor = SimdReal::splat(1.0e-10);
 
     let mut hit = SimdBool::splat(true);
     let mut tmin = SimdReal::splat(f64::MIN);
@@ -191,7 +192,12 @@ fn cast_ray(bv: &SimdAabb, ray: &SimdRay) -> (SimdBool, SimdReal) {
             tmin = tmin.simd_max(inter_with_near_plane);
             tmax = tmax.simd_min(inter_with_far_plane);
 
-            tmin.simd_le(tmax)
+            // The slab parameters are rounded, so a line which only touches the box (for instance
+            // one passing exactly through a vertex of the polyline) must not be pruned: allow a
+            // small relative slack. Candidate edges are still tested exactly afterwards.
+            let magnitude = tmin.simd_max(-tmin).simd_max(tmax.simd_max(-tmax));
+            let slack = (magnitude + one) * slack_factor;
+            tmin.simd_le(tmax + slack)
         };
 
         hit = hit & is_not_zero_test.select(is_not_zero, is_zero_test);
